@@ -86,6 +86,8 @@ type Case struct {
 	// HookFault: the webhook endpoint answers 500 once per hook, on the second
 	// notification of one write (= in the middle of a delivery batch).
 	HookFault bool `json:"hook_fault,omitempty"`
+
+	excl map[string]int // generator bookkeeping: shapes left out for known findings
 }
 
 var allDetects = []string{"inside", "outside", "enter", "exit", "cross"}
@@ -266,10 +268,18 @@ func (f FenceSpec) expectWrite(fr frame, id string, old, cur *mobj, isFset bool)
 	wNew := f.whereOK(cur.fields)
 	m2 := sNew == yes && wNew
 	if isFset {
-		// the previous position is the current one; only the field filter can
-		// change membership, and the implementation reports inside/outside
+		// the previous position is the current one. An object that fails the
+		// fence's WHERE filter is not part of the fenced population: like a SET
+		// of such an object (and like an id failing MATCH) the FSET announces
+		// nothing (finding fence-fset-ignores-where: the implementation sent
+		// "outside"). The previous field values are unknown to the fence, so a
+		// filter-passing object is simply inside or outside (impl-mirrored).
 		if f.Where != nil {
 			tr.Mirrored = "fset-with-where"
+		}
+		if !wNew {
+			tr.Kind = "filtered"
+			return nil, tr
 		}
 		if m2 {
 			tr.Kind = "fset-in"
@@ -298,7 +308,7 @@ func (f FenceSpec) expectWrite(fr frame, id string, old, cur *mobj, isFset bool)
 		return []string{"exit", "outside"}, tr
 	case !m1 && m2:
 		tr.Kind = "out-in"
-		if old == nil {
+		if old == nil || !old.spatial {
 			tr.Kind = "new-in"
 		}
 		return []string{"enter", "inside"}, tr
@@ -309,7 +319,10 @@ func (f FenceSpec) expectWrite(fr frame, id string, old, cur *mobj, isFset bool)
 		tr.Mirrored = "set-where-false"
 		return nil, tr
 	}
-	if old == nil {
+	if old == nil || !old.spatial {
+		// no previous position (new id, or the id held a string): there is no
+		// path that could cross the area (finding fence-string-old-position-origin:
+		// the implementation drew the path from lat 0 lon 0)
 		tr.Kind = "new-out"
 		return []string{"outside"}, tr
 	}
@@ -319,9 +332,6 @@ func (f FenceSpec) expectWrite(fr frame, id string, old, cur *mobj, isFset bool)
 		tr.Kind = "out-out"
 		tr.Mirrored = "nocross"
 		return []string{"outside"}, tr
-	}
-	if !old.spatial {
-		tr.Mirrored = "path-from-string"
 	}
 	switch fr.crosses(old.lat, old.lon, cur.lat, cur.lon) {
 	case unsure:
@@ -531,6 +541,8 @@ type matchResult struct {
 	Status string // complete partial mismatch
 	Kind   string // missing extra wrong-detect wrong-payload wrong-message
 	What   string
+	Got    *gmsg // the received message at the point of divergence, if any
+	Want   *xmsg // the expected message at the point of divergence, if any
 }
 
 // matchStream aligns the received messages with the expected list (optional
@@ -579,7 +591,7 @@ func matchStream(exp []xmsg, got []gmsg) matchResult {
 	case partial:
 		for i := len(exp) - 1; i >= 0; i-- {
 			if !exp[i].Optional {
-				return matchResult{"partial", "missing", fmt.Sprintf("after %d received messages the expected tail up to {%s} did not arrive", len(got), exp[i])}
+				return matchResult{Status: "partial", Kind: "missing", What: fmt.Sprintf("after %d received messages the expected tail up to {%s} did not arrive", len(got), exp[i]), Want: &exp[i]}
 			}
 		}
 	}
@@ -590,7 +602,7 @@ func matchStream(exp []xmsg, got []gmsg) matchResult {
 			i++
 		}
 		if i == len(exp) {
-			return matchResult{"mismatch", "extra", fmt.Sprintf("message #%d {%s} was not expected (all %d expected messages already seen)", j, got[j], len(exp))}
+			return matchResult{Status: "mismatch", Kind: "extra", What: fmt.Sprintf("message #%d {%s} was not expected (all %d expected messages already seen)", j, got[j], len(exp)), Got: &got[j]}
 		}
 		if !sameMsg(exp[i], got[j]) {
 			x, g := exp[i], got[j]
@@ -621,13 +633,13 @@ func matchStream(exp []xmsg, got []gmsg) matchResult {
 			case x.Cmd == g.Cmd && x.ID == g.ID && x.Detect == g.Detect:
 				kind = "wrong-payload"
 			}
-			return matchResult{"mismatch", kind, fmt.Sprintf("message #%d is {%s}, expected {%s}", j, g, x)}
+			return matchResult{Status: "mismatch", Kind: kind, What: fmt.Sprintf("message #%d is {%s}, expected {%s}", j, g, x), Got: &got[j], Want: &exp[i]}
 		}
 		i++
 	}
 	for ; i < len(exp); i++ {
 		if !exp[i].Optional {
-			return matchResult{"partial", "missing", fmt.Sprintf("after %d received messages the expected {%s} did not arrive", len(got), exp[i])}
+			return matchResult{Status: "partial", Kind: "missing", What: fmt.Sprintf("after %d received messages the expected {%s} did not arrive", len(got), exp[i]), Want: &exp[i]}
 		}
 	}
 	return matchResult{Status: "complete"}
